@@ -1008,10 +1008,16 @@ func impPasses() []string {
 	for _, fam := range grpFamilies {
 		res = append(res, fam.name)
 	}
-	return append(res, "H2F", "Set", "KzgOpen", "PolyEval") // imp_h2f.go; impkzg.go: Gen/Imp/KzgOpen_<curve>.lean; imp_poly.go: Gen/Imp/PolyEval.lean
+	return append(res, "H2F", "Set", "KzgOpen", "PolyEval", "Recode") // imp_h2f.go; impkzg.go: Gen/Imp/KzgOpen_<curve>.lean; imp_poly.go: Gen/Imp/PolyEval.lean
 }
 
 func runImp() {
+	if impOnly == "" || impOnly == "Recode" {
+		runRecode() // imp_recode.go: Gen/Imp/Recode.lean
+		if impOnly != "" {
+			return
+		}
+	}
 	if impOnly == "" || impOnly == "PolyEval" {
 		runPolyEval() // imp_poly.go
 		if impOnly != "" {
